@@ -275,11 +275,12 @@ class Verdict:
         }
         if self.level == 'proof':
             ev['coverage']['exhaustive'] = True
-        os.makedirs(os.path.join(VERIF, 'evidence'), exist_ok=True)
-        with open(os.path.join(VERIF, 'evidence', self.prop + '.json'), 'w') as f:
-            json.dump(ev, f, indent=1, sort_keys=True)
+        if not os.environ.get('VERIF_NO_EVIDENCE'):
+            os.makedirs(os.path.join(VERIF, 'evidence'), exist_ok=True)
+            with open(os.path.join(VERIF, 'evidence', self.prop + '.json'), 'w') as f:
+                json.dump(ev, f, indent=1, sort_keys=True)
         if new:
-            vdir = os.path.join(BUILD, 'violations')
+            vdir = os.path.join(BUILD, 'violations' + ('-selftest' if os.environ.get('VERIF_NO_EVIDENCE') else ''))
             os.makedirs(vdir, exist_ok=True)
             path = os.path.join(vdir, '%s.json' % self.prop)
             with open(path, 'w') as f:
